@@ -590,7 +590,7 @@ fn case13<A: Alphabet>(case: u64, rng: &mut Rng, rep: &mut Report, alpha: &str, 
             }
         }
         // the reference copy goes through the same refinement (same object history)
-        let ref_its: Option<Vec<(f64, f64, bool)>> = shared_ref.as_mut().and_then(|t| {
+        let ref_res: Option<Result<Vec<(f64, f64, bool)>, String>> = shared_ref.as_mut().map(|t| {
             guard(|| {
                 let mut v = Vec::new();
                 for x in t.approximate_score(p) {
@@ -602,8 +602,11 @@ fn case13<A: Alphabet>(case: u64, rng: &mut Rng, rep: &mut Report, alpha: &str, 
                 }
                 v
             })
-            .ok()
         });
+        // the frozen reference copy, driven through the same object history, runs into the same
+        // "index == len" panic: the exhausted-window limitation, not a deviation of the library
+        let ref_panics_alike_same_history = matches!(&ref_res, Some(Err(m)) if keys_len_panic(m));
+        let ref_its: Option<Vec<(f64, f64, bool)>> = ref_res.and_then(|r| r.ok());
         let res = guard(|| {
             let mut fresh;
             let tfmp = match shared.as_mut() {
@@ -626,7 +629,12 @@ fn case13<A: Alphabet>(case: u64, rng: &mut Rng, rep: &mut Report, alpha: &str, 
         let its = match res {
             Ok(x) => x,
             Err(pn) => {
-                rep.violate(&c13_panic_kind(&st, &pn, Some(p)), case, format!("panic in approximate_score({}): {}", p, pn), st.witness(alpha, J::obj().set("p", J::f(p))));
+                let kind = if ref_panics_alike_same_history && keys_len_panic(&pn) && panic_site(&pn).ends_with("lightmotif-tfmpvalue/src/lib.rs") {
+                    "c13.window_exhausted_above.panic".to_string()
+                } else {
+                    c13_panic_kind(&st, &pn, Some(p))
+                };
+                rep.violate(&kind, case, format!("panic in approximate_score({}): {}", p, pn), st.witness(alpha, J::obj().set("p", J::f(p)).set("object", J::s(if shared.is_some() { "reused" } else { "fresh" }))));
                 return;
             }
         };
